@@ -337,6 +337,7 @@ func checkProgram(ps emitbatch.ProgSpec, bt batch, ns *rig.NatsServer) *progResu
 			for li, lp := range bt.Legs {
 				checkService(prog, f, svc, gs, methods, lp[0], lp[1], bt.Calls, rng, ns, res, addV, li == 0)
 			}
+			afterBrokenSession(prog, svc, gs, methods, []string{"binary", "compact", "json"}[int(ps.Seed>>16&0xffff)%3], rng, ns, res, addV)
 			busyRegistry(prog, svc, gs, methods, []string{"binary", "compact", "json"}[int(ps.Seed>>12&0xffff)%3], rng, ns, res, addV)
 			scaledOut(prog, svc, gs, methods, []string{"binary", "compact", "json"}[int(ps.Seed>>4&0xffff)%3], rng, ns, res, addV)
 			largeReplies(prog, svc, gs, methods, []string{"binary", "compact", "json"}[int(ps.Seed>>8&0xffff)%3], rng, ns, res, addV)
@@ -595,6 +596,109 @@ func largeReplies(prog *idl.Program, svc *idl.Service, gs *genreg.Service, metho
 var largePhases, largeFailed int32
 var scaledPhases, scaledFailed int32
 var busyPhases, busyFailed int32
+var reconnPhases, reconnFailed int32
+
+// afterBrokenSession: the client's first TCP connection is lost in the middle
+// of a reply frame; the application reopens the same transport (as a transport
+// monitor does) and calls through it: the calls of the new session behave like
+// any others.
+func afterBrokenSession(prog *idl.Program, svc *idl.Service, gs *genreg.Service, methods []methodInfo, proto string, rng *rand.Rand, ns *rig.NatsServer, res *progResult, addV func(string, string, interface{})) {
+	if atomic.LoadInt32(&reconnFailed) >= 1 || atomic.LoadInt32(&reconnPhases) >= 4 {
+		return
+	}
+	var two []methodInfo
+	for _, mi := range methods {
+		if !mi.m.Oneway {
+			two = append(two, mi)
+		}
+	}
+	if len(two) == 0 {
+		return
+	}
+	atomic.AddInt32(&reconnPhases, 1)
+	inner := addV
+	addV = func(sig, what string, w interface{}) {
+		atomic.AddInt32(&reconnFailed, 1)
+		inner(sig, what, w)
+	}
+	exp := &expectation{calls: map[string]int{}, args: map[string][]interface{}{}, outcome: map[string][]interface{}{}, observed: make(chan string, 1024)}
+	recorder := func(iface, method string, args []interface{}) []interface{} {
+		fctx, _ := args[0].(frugal.FContext)
+		token := ""
+		if fctx != nil {
+			token = fctx.CorrelationID()
+		}
+		exp.mu.Lock()
+		exp.calls[token]++
+		exp.args[token] = append([]interface{}{method}, args[1:]...)
+		out := exp.outcome[token]
+		exp.mu.Unlock()
+		select {
+		case exp.observed <- token:
+		default:
+		}
+		return out
+	}
+	var proc frugal.FProcessor
+	func() {
+		defer func() { recover() }()
+		proc = gs.NewProcessor(gs.NewStub(recorder))
+	}()
+	if proc == nil {
+		return
+	}
+	leg, err := rig.StartRPCLeg("tcp", proto, proc, ns, rig.LegOptions{TCPFirstConnPartial: true})
+	if err != nil {
+		res.Inconclusive = append(res.Inconclusive, fmt.Sprintf("leg tcp/%s (broken first session): %v", proto, err))
+		return
+	}
+	defer leg.Stop()
+	tr, err := leg.NewClient()
+	if err != nil {
+		res.Inconclusive = append(res.Inconclusive, fmt.Sprintf("client tcp/%s (broken first session): %v", proto, err))
+		return
+	}
+	closed := tr.Closed()
+	lost := frugal.NewFContext("lost-session")
+	lost.SetTimeout(300 * time.Millisecond)
+	tr.Request(lost, rigFrame(lost)) // answered with the beginning of a frame, then the connection drops
+	select {
+	case <-closed:
+	case <-time.After(20 * time.Second):
+		res.Inconclusive = append(res.Inconclusive, fmt.Sprintf("tcp/%s (broken first session): the transport did not close after the connection dropped", proto))
+		return
+	}
+	if err := tr.Open(); err != nil {
+		res.Inconclusive = append(res.Inconclusive, fmt.Sprintf("tcp/%s (broken first session): reopen: %v", proto, err))
+		return
+	}
+	client := reflect.ValueOf(gs.NewClient(frugal.NewFServiceProvider(tr, leg.PF)))
+	ct := client.Type()
+	for c := 0; c < 3; c++ {
+		mi := two[rng.Intn(len(two))]
+		var gm reflect.Value
+		for i := 0; i < ct.NumMethod(); i++ {
+			if norm(ct.Method(i).Name) == norm(mi.m.Name) {
+				gm = client.Method(i)
+			}
+		}
+		if !gm.IsValid() {
+			continue
+		}
+		one := runCall(prog, svc, mi, gm, fmt.Sprintf("%s-%s-reopened-%s-%d", svc.Name, mi.m.Name, proto, c), "tcp/"+proto+"(transport reopened after a session lost mid-frame)", rng, exp, leg, res, addV)
+		resMu.Lock()
+		res.Calls++
+		if one != "" {
+			res.Outcomes[one+"(reopened transport)"]++
+		}
+		resMu.Unlock()
+	}
+}
+
+// rigFrame is a minimal framed request for ctx (headers + a few payload bytes).
+func rigFrame(ctx frugal.FContext) []byte {
+	return wire.BuildFrame(wire.MapToPairs(ctx.RequestHeaders()), []byte{0x80, 0x01, 0x00, 0x01})
+}
 
 // busyRegistry: a call is issued while the client transport's registry is busy
 // (its lock is held for 150 ms, as by another request's slow registration) on
